@@ -110,6 +110,7 @@ pvar = z3.Function('pvar', Int, Int, Int, Int)          # permutations group: th
 cnb = z3.Function('cnb', Int, Int, ISeq)            # simple graph g: the closed neighbourhood of v (v and its neighbours) as a sorted list
 nbj = z3.Function('nbj', Int, Int, Int)             # position of v's closed neighbourhood in the duplicate-free list of neighbourhoods
 nbv = z3.Function('nbv', Int, Int, Int)             # a vertex whose closed neighbourhood is the j-th listed one
+isorted = z3.Function('isorted', ISeq, ISeq)        # sorted(X): a function of the list (no schema needed where only its identity matters)
 degsum = z3.Function('degsum', Int, Int, Int)             # bipartite graph g: number of edges at the left vertices 1..u (sum of their degrees)         # combinations group (pairs): the variable of the pair {u, v}, u < v
 mrow = z3.Function('mrow', Int, Int, Int, ISeq)        # (group, u, m): the variables p[u,1..m] of a unary mapping, in order
 mcol = z3.Function('mcol', Int, Int, Int, ISeq)        # (group, v, n): the variables p[1..n,v], in order
@@ -205,7 +206,7 @@ def cmp_op(op, lhs, rhs):
                  z3.If(op == S('<'), lhs < rhs, z3.If(op == S('>'), lhs > rhs, z3.BoolVal(False))))))
 
 
-FUNCS = dict(cnb=cnb, nbj=nbj, nbv=nbv, pvar=pvar, lnbrs=lnbrs, gadj=gadj, degsum=degsum, cvar=cvar, tlen=tlen, tcoef=tcoef, tlit=tlit, tunit=tunit, tnegc=tnegc, tset=tset, wsum=wsum, thaszero=thaszero,
+FUNCS = dict(isorted=isorted, cnb=cnb, nbj=nbj, nbv=nbv, pvar=pvar, lnbrs=lnbrs, gadj=gadj, degsum=degsum, cvar=cvar, tlen=tlen, tcoef=tcoef, tlit=tlit, tunit=tunit, tnegc=tnegc, tset=tset, wsum=wsum, thaszero=thaszero,
              tmaxabs=tmaxabs, tnonneg=tnonneg, tmpos=tmpos, tzpos=tzpos, mkcon=mkcon, olen=olen, osnoc=osnoc, otake=otake, holds=holds,
              osat=osat, oappc=oappc, omaxabs=omaxabs, ohaszero=ohaszero, onormal=onormal,
              ilen=ilen, iget=iget, inil=inil, isnoc=isnoc, iapp=iapp, ineg=ineg, haszero=haszero,
@@ -482,6 +483,19 @@ def _on_terms(terms_by_decl):
         # Seq.lean implchain_*: n-1 two-literal clauses over the literals of X
         out += [z3.Implies(ilen(X) >= 1, clen(implchain(X)) == ilen(X) - 1), cmaxabs(implchain(X)) <= maxabs(X),
                 z3.Implies(z3.Not(haszero(X)), z3.Not(chaszero(implchain(X))))]
+    for (X,) in terms_by_decl.get('isorted', []):
+        # CnfSem.lean isorted_*: sorting permutes - length, extrema, zero membership, magnitude unchanged
+        t = isorted(X)
+        out += [ilen(t) == ilen(X), minof(t) == minof(X), maxof(t) == maxof(X), haszero(t) == haszero(X), maxabs(t) == maxabs(X)]
+        # ilen_isorted, minof_isorted, maxof_isorted, haszero_isorted, maxabs_isorted
+    for (s_, t_) in terms_by_decl.get('iapp', []):
+        # CnfSem.lean iapp_min_max / iapp_nil
+        out += [z3.Implies(z3.And(ilen(s_) >= 1, ilen(t_) >= 1), z3.And(minof(iapp(s_, t_)) == zmin(minof(s_), minof(t_)), maxof(iapp(s_, t_)) == zmax(maxof(s_), maxof(t_)))),
+                z3.Implies(ilen(t_) == 0, iapp(s_, t_) == s_), z3.Implies(ilen(s_) == 0, iapp(s_, t_) == t_)]
+    for (s_, x) in terms_by_decl.get('isnoc', []):
+        # CnfSem.lean isnoc_min_max
+        out += [z3.Implies(ilen(s_) == 0, z3.And(minof(isnoc(s_, x)) == x, maxof(isnoc(s_, x)) == x)),
+                z3.Implies(ilen(s_) >= 1, z3.And(minof(isnoc(s_, x)) == zmin(minof(s_), x), maxof(isnoc(s_, x)) == zmax(maxof(s_), x)))]
     for (g, u) in terms_by_decl.get('degsum', []):
         # CnfSem.lean degsum_zero / degsum_pred / degsum_succ / degsum_nonneg / ilen_rnbrs_nonneg (definition by recursion on u)
         out += [z3.Implies(u == 0, degsum(g, u) == 0),
@@ -854,6 +868,11 @@ def _sem_on_terms(asgs, terms_by_decl):
             out.append(count(a, isnoc(s, x)) == count(a, s) + b2i(lit_true(a, x)))
         for (s, t_) in terms_by_decl.get('iapp', []):
             out.append(count(a, iapp(s, t_)) == count(a, s) + count(a, t_))          # Count.lean count_append
+        for (X,) in terms_by_decl.get('isorted', []):
+            out.append(count(a, isorted(X)) == count(a, X))                          # CnfSem.count_isorted
+        for (sq, o) in terms_by_decl.get('ishift', []):
+            if z3.is_app(sq) and sq.decl().name() == 'isorted':
+                out.append(count(a, ishift(sq, o)) == count(a, ishift(sq.arg(0), o)))   # CnfSem.count_ishift_isorted
         for (c, s) in terms_by_decl.get('csnoc', []):
             out.append(sat(a, csnoc(c, s)) == z3.And(sat(a, c), ctrue(a, s)))     # L1 instance
         for (c, d) in terms_by_decl.get('capp', []):
